@@ -75,7 +75,12 @@ Alphabet == <<
   [sym |-> "loadmissing", class |-> "cmd"],     \* :load /nonexistent.gdn
   [sym |-> "loadfile", class |-> "cmd"],        \* :load lib.gdn  (defines g, which throws)
   [sym |-> "trace",    class |-> "cmd"],        \* :trace  (toggles; trace text must travel as `printed` responses)
-  [sym |-> "quit",     class |-> "quit"]        \* :quit  ends the process: the one request that is not answered
+  [sym |-> "quit",     class |-> "quit"],       \* :quit  ends the process: the one request that is not answered
+  \* inputs with characters of more than one byte where commands are split from their arguments
+  [sym |-> "nbspcmd",  class |-> "cmd"],        \* :doc<U+00A0>f
+  [sym |-> "unicmd",   class |-> "cmd"],        \* :<U+00E9>t<U+00E9> x
+  [sym |-> "widecmd",  class |-> "cmd"],        \* :type<U+3000>x
+  [sym |-> "nbspsrc",  class |-> "source"]      \* 1<U+00A0>+ 1
 >>
 
 \* admissible answer kinds per request class (independent of the state:
